@@ -114,6 +114,14 @@ def step (s : State) (toks : List String) : State × String :=
       | some t => let t := settle 4 t; (set s i t, showPc t)
       | none => (s, "blocked")
     | _, _ => (s, "bad-op")
+  -- a hand-over whose instance lookup happened before the instance was closed: straight to `accept`
+  | ["late", i, m] =>
+    match i.toNat?, m.toNat? with
+    | some i, some m =>
+      match C05.step (get s i) (.accept m) with
+      | some t => let t := settle 4 t; (set s i t, showPc t)
+      | none => (s, "blocked")
+    | _, _ => (s, "bad-op")
   -- the instance sends a message to its own node: it arrives like any other message
   | ["self", i, m] =>
     match i.toNat?, m.toNat? with
